@@ -262,6 +262,37 @@ def run_model(ctx, histories: List[List[dict]], world: Optional[dict] = None, sh
     return [(v, idx, it) for v, (idx, it) in zip(vals, metas)]
 
 
+FILTER_HEADER = ('From HailV Require Import Common.Prelude BatchDB.Model BatchDB.LegalFilter.\nOpen Scope Z_scope.\n')
+
+
+def legal_filtered(ctx, histories: List[List[dict]], world: Optional[dict] = None) -> List[List[dict]]:
+    """The sub-history of each history that the model's executable legality filter (BatchDB/LegalFilter.v: Legal.legalb,
+    DepsDef.client_ok, C10's extra hypothesis) keeps: a good history by construction (LegalFilter.kept_legal).  Ops
+    without a model counterpart are kept only when they are read-only."""
+    world = world or DEFAULT_WORLD
+    exprs, metas = [], []
+    for h in histories:
+        it = Interner()
+        terms, idx = [], []
+        for i, op in enumerate(h):
+            try:
+                t = to_coq(op, it, world)
+            except (KeyError, TypeError, ValueError, AttributeError):
+                t = None
+            if t is not None:
+                terms.append('(' + t + ')')
+                idx.append(i)
+        exprs.append('legal_filter init [' + '; '.join(terms) + ']')
+        metas.append(idx)
+    shard = max(2, -(-len(exprs) // 14))
+    vals = core.coq_eval(ctx, FILTER_HEADER, exprs, shard=shard, label='batchdbf')
+    out = []
+    for h, idx, v in zip(histories, metas, vals):
+        keep = {i for i, b in zip(idx, v) if b is True or b == 'true'}
+        out.append([op for i, op in enumerate(h) if i in keep or (isinstance(op, dict) and op.get('op') in READ_ONLY_OPS)])
+    return out
+
+
 HM = 2305843009213693951
 
 
